@@ -378,7 +378,59 @@ def replay_embedded(ns, ob, model):
     return False, dict(note="the mapping laws hold on the generated archives (three / one / none)")
 
 
+def replay_errors(ns, ob, model):
+    """the error classes built the way the library builds them: fields kept, messages rendered (never an exception)"""
+    from Bio.Seq import Seq
+    E = ns["moclo.errors"]
+    CircularRecord = ns["moclo.record"].CircularRecord
+
+    class _M(object):
+        def __init__(self, i):
+            self.record = CircularRecord(Seq("ATGC"), id=i)
+
+    m = [_M("alpha"), _M("beta"), _M("gamma")]
+    rec = CircularRecord(Seq("ATGCATGC"), id="r")
+    cause = ValueError("x")
+    probes = []
+    for details in (None, "reverse-complementing overhangs", "same start overhang: 'AACC'"):
+        kw = {} if details is None else dict(details=details)
+        suffix = "" if details is None else " (%s)" % details
+        probes += [
+            ("MissingModule('AACC'%s)" % (", details=%r" % details if details else ""), lambda kw=kw: E.MissingModule("AACC", **kw),
+             dict(start_overhang="AACC", details=details), "no module with 'AACC' start overhang" + suffix, None),
+            ("DuplicateModules(m0, m1, ...)", lambda kw=kw: E.DuplicateModules(m[0], m[1], **kw),
+             dict(duplicates=(m[0], m[1]), details=details), "duplicate modules: alpha, beta" + suffix, None),
+            ("UnusedModules(m0, m1, m2, ...)", lambda kw=kw: E.UnusedModules(m[0], m[1], m[2], **kw),
+             dict(remaining=(m[0], m[1], m[2]), details=details), "unused: alpha, beta, gamma" + suffix, None),
+            ("UnusedModules(m2)", lambda kw=kw: E.UnusedModules(m[2], **kw), dict(remaining=(m[2],), details=details), "unused: gamma" + suffix, None),
+            ("InvalidSequence(rec, ...)", lambda d=details: E.InvalidSequence(rec, exc=cause, details=d) if d else E.InvalidSequence(rec),
+             dict(sequence=rec, details=details), None, ("invalid sequence: ", suffix)),
+            ("IllegalSite(rec, ...)", lambda d=details: E.IllegalSite(rec, details=d) if d else E.IllegalSite(rec),
+             dict(sequence=rec, details=details), None, ("illegal site in sequence: ", suffix)),
+        ]
+    for (call, mk, fields, text, ends) in probes:
+        try:
+            e = mk()
+            for f, want in fields.items():
+                got = getattr(e, f)
+                same = (got is want) if not isinstance(want, (tuple, str, type(None))) else (got == want)
+                if not same:
+                    return True, dict(call=call, field=f, expected=repr(want)[:80], observed=repr(got)[:80])
+            got = str(e)
+            if text is not None and got != text:
+                return True, dict(call="str(%s)" % call, expected=text, observed=got)
+            if ends is not None and not (got.startswith(ends[0]) and got.endswith(ends[1])):
+                return True, dict(call="str(%s)" % call, expected="%s...%s" % ends, observed=got[:120])
+        except Exception as ex_:
+            return True, dict(call=call, expected="an error object and its message", observed="raised %r" % (ex_,))
+    return False, dict(note="fields and messages of the error classes are as documented on %d probes" % len(probes))
+
+
 REPLAY = {
+    "InvalidSequence.__init__": replay_errors, "InvalidSequence.__str__": replay_errors,
+    "DuplicateModules.__init__": replay_errors, "DuplicateModules.__str__": replay_errors,
+    "MissingModule.__init__": replay_errors, "MissingModule.__str__": replay_errors,
+    "UnusedModules.__init__": replay_errors, "UnusedModules.__str__": replay_errors,
     "EmbeddedRegistry._data": replay_embedded,
     "EmbeddedRegistry.__getitem__": replay_embedded,
     "EmbeddedRegistry.__iter__": replay_embedded,
